@@ -360,4 +360,71 @@ def absN (H : Heap) : Nat → Nat → Node
 /-- the persistent tree of a handle -/
 def Handle.abs (w : World) (h : Handle) : Node := absN w.heap (heightOf w.heap h.root) h.root
 
+/-! ## sessions: any number of trees over one heap, and the persistent reference -/
+
+inductive Op where
+  | new (t : Nat) (io ca : Bool)
+  | insert (i : Nat) (e : Elt)
+  | delete (i : Nat) (k : Nat)
+  | clone (i : Nat) (io : Bool)
+  | freeze (i : Nat)
+
+structure Sess where
+  w : World
+  hs : List Handle
+
+def Sess.init : Sess := ⟨⟨#[], 0⟩, []⟩
+
+/-- one operation of the mechanism-level model on tree handle `i` -/
+def Sess.step (s : Sess) : Op → Sess
+  | .new t io ca => let (w, h) := newTree s.w t io ca; ⟨w, s.hs ++ [h]⟩
+  | .insert i e =>
+    match s.hs[i]? with
+    | none => s
+    | some h => let r := h.insert s.w e; ⟨r.1, s.hs.set i r.2.1⟩
+  | .delete i k =>
+    match s.hs[i]? with
+    | none => s
+    | some h => let r := h.delete s.w k none; ⟨r.1, s.hs.set i r.2.1⟩
+  | .clone i io =>
+    match s.hs[i]? with
+    | none => s
+    | some h =>
+      match cloneTree s.w h io with
+      | none => s
+      | some (w, c) => ⟨w, s.hs ++ [c]⟩
+  | .freeze i =>
+    match s.hs[i]? with
+    | none => s
+    | some h => ⟨s.w, s.hs.set i { h with immutable := true }⟩
+
+/-- the same operation on the persistent reference: a list of independent `Model.BTree.Tree` values -/
+def refStep (ts : List Tree) : Op → List Tree
+  | .new t io ca => ts ++ [Tree.empty t io ca]
+  | .insert i e =>
+    match ts[i]? with
+    | none => ts
+    | some tr => ts.set i (tr.insert e).1
+  | .delete i k =>
+    match ts[i]? with
+    | none => ts
+    | some tr => ts.set i (tr.delete k none).1
+  | .clone i io =>
+    match ts[i]? with
+    | none => ts
+    | some tr =>
+      match tr.clone io with
+      | none => ts
+      | some c => ts ++ [c]
+  | .freeze i =>
+    match ts[i]? with
+    | none => ts
+    | some tr => ts.set i tr.makeImmutable
+
+/-- the persistent tree a handle denotes -/
+def Handle.toTree (w : World) (h : Handle) : Tree := ⟨h.t, h.abs w, h.size, h.immutable, h.inOrder, h.collapseAlways⟩
+
+/-- the abstraction of a session -/
+def Sess.abs (s : Sess) : List Tree := s.hs.map (Handle.toTree s.w)
+
 end Model.BTreeCow
